@@ -375,7 +375,7 @@ def merge_render_with_git(b, l, r, strategy=None):
 
     # Remove trailing newline if ">>>>>>> remote" is the last line
     lines = merged.splitlines(True)
-    if "\n" in lines[-1] and (">"*7) in lines[-1]:
+    if lines and "\n" in lines[-1] and (">"*7) in lines[-1]:
         merged = merged.rstrip()
     return merged, status
 
@@ -403,12 +403,19 @@ def merge_render_with_diff3(b, l, r, strategy=None):
 def merge_render(b, l, r, strategy=None, config=DefaultConfig):
     if strategy == "use-base":
         return b, 0
+    # The external tools refuse some texts (e.g. text with NUL characters,
+    # which they take for binary data): git merge-file then exits with a
+    # negative status (>= 128), diff3 with 2, and neither prints a result.
+    # Fall back on the builtin renderer in that case.
     if config.use_git and which('git'):
-        return merge_render_with_git(b, l, r, strategy)
+        merged, status = merge_render_with_git(b, l, r, strategy)
+        if 0 <= status < 128:
+            return merged, status
     elif config.use_diff and which('diff3'):
-        return merge_render_with_diff3(b, l, r, strategy)
-    else:
-        return builtin_merge_render(b, l, r, strategy)
+        merged, status = merge_render_with_diff3(b, l, r, strategy)
+        if status in (0, 1):
+            return merged, status
+    return builtin_merge_render(b, l, r, strategy)
 
 
 def file_timestamp(filename):
